@@ -248,7 +248,7 @@ def main(argv=None):
                   "the 63-step loop over the bits of |x| is executed in full (concrete trip count); longer lists: the per-pair loops are uniform in the pair index (not proved by induction here)"]
     chk.trusted = ["step kernels / line evaluation meet their specification (C01.1)", "final exponentiation is a homomorphism (C01.3)", "T8"]
     # lower layers whose specifications this check relies on: their obligations are part of this check's claim (framework.Check.include)
-    for dep in ['C02', 'C03', 'C04', 'C01', 'C19']:
+    for dep in ['C02', 'C03', 'C04', 'C01', 'C19', 'C20']:
         chk.include(dep)
     chk.run()
     chk.finish()
